@@ -28,6 +28,7 @@ SPEC = {'id': 'C09',
  'rule': 'cases = prefix lengths, padding sizes, size budgets, byte streams (valid item sequences on every prefix '
          'boundary, truncations, mutations, random bytes, non-minimal encodings) each read whole and through scripted '
          'fragmenting readers (zero-length reads, data+EOF) and io.Pipe; a case is non-trivial when its stream/script '
-         'is non-empty; distinct = distinct (class, canonical case line)',
+         'is non-empty; distinct = distinct (class, canonical case line)'
+         ' Also: four independent streams written concurrently through writers that stall at random (each reads back exactly its own chunks); prefixes whose third byte announces a continuation are rejected as too long at that point, on a truncated and on an open stream.',
  'trusted': ['Go stdlib modelled: io.ReadFull, io.CopyN(ioutil.Discard), io.Pipe zero-length writes'],
  'assumptions': ["ReadData's reader obeys the io.Reader contract and eventually stops returning (0, nil)"]}
